@@ -75,8 +75,11 @@ def run_case(task):
         if 'libm_mono' in ob: ex.libm_mono = ob['libm_mono']
         if 'ackermann' in ob: ex.ackermann = ob['ackermann']
         if 'div_as_mul' in ob: ex.div_as_mul = ob['div_as_mul']
+        if 'fork_select' in ob: ex.fork_select = ob['fork_select']
+        ex.eager_writes = ob.get('eager_writes', False)
         if ob.get('setup'): ob['setup'](ex)
         cap = ob.get('time_cap', 280 if tier == 'quick' else 2400)
+        if tier != 'quick' and 'time_cap_thorough' in ob: cap = ob['time_cap_thorough']
         try:
             ex.run(ob['entry'], [iv(64, c) for c in case], time_cap=cap)
         except Unsupported as e:
@@ -158,6 +161,7 @@ def run_tasks(tasks, jobs, obs, tier):
             t = pending.pop(0); pc, cc = multiprocessing.Pipe(False)
             p = multiprocessing.Process(target=_child, args=(t, cc)); p.start(); cc.close()
             cap = obmap[t[1]].get('time_cap', 280 if tier == 'quick' else 2400)
+            if tier != 'quick' and 'time_cap_thorough' in obmap[t[1]]: cap = obmap[t[1]]['time_cap_thorough']
             running.append((p, pc, t, time.time(), cap * 1.3 + 60))
         time.sleep(0.05)
         still = []
